@@ -19,4 +19,4 @@ for i in ${IDS//,/ }; do
   VERIF_REPO=$WT VERIF_TIER=$TIER /verif/check $i $TIER > $T-check-$i.out 2>&1; RC=$?
   echo "check $i $TIER exit=$RC | $(grep -m2 'VIOLATION\|MACHINERY\|held' $T-check-$i.out | cut -c1-220 | tr '\n' '|')"
 done
-cd /; git -C /repo worktree remove --force $WT; rm -f $T-*.out
+cd /; git -C /repo worktree remove --force $WT; rm -f $T-*.out; rm -rf /tmp/verif-evidence-$(basename $WT)
